@@ -6,9 +6,12 @@ import (
 	"fmt"
 	"os"
 	"path/filepath"
+	"runtime"
 	"sort"
 	"strings"
+	"sync"
 	"testing"
+	"time"
 
 	"pgregory.net/rapid"
 
@@ -17,9 +20,43 @@ import (
 
 func TestMain(m *testing.M) {
 	flag.Parse()
+	go memoryMonitor()
 	code := m.Run()
 	obs.Flush()
 	os.Exit(code)
+}
+
+// caseLimit is the real-time watchdog per case: two orders of magnitude above the normal cost of the slowest
+// cases (seconds) and eight above the common ones; a case that is still running then is reported as
+// non-termination and the process exits at once (the stuck goroutine cannot be stopped, so nothing is shrunk).
+const caseLimit = 300 * time.Second
+
+// current case, for the runaway-allocation monitor
+var (
+	curMu   sync.Mutex
+	curFail func(sig, got string)
+)
+
+// memoryMonitor turns unbounded allocation (e.g. an encoder stuck in a loop that keeps appending) into a recorded
+// violation of the running case instead of an out-of-memory crash of the test process.
+func memoryMonitor() {
+	const limit = 10 << 30
+	var ms runtime.MemStats
+	for {
+		time.Sleep(200 * time.Millisecond)
+		runtime.ReadMemStats(&ms)
+		if ms.HeapAlloc > limit {
+			curMu.Lock()
+			f := curFail
+			curMu.Unlock()
+			if f != nil {
+				f("runaway-allocation", fmt.Sprintf("heap grew beyond %d GiB while this case was running", limit>>30))
+			}
+			obs.Flush()
+			fmt.Println("VIOLATION-CASE runaway allocation: heap beyond limit, aborting the process")
+			os.Exit(1)
+		}
+	}
 }
 
 // fataler is satisfied by *testing.T and *rapid.T.
@@ -57,7 +94,27 @@ func newChk[C any](prop, name, rule string, run func(rec *obs.Rec, c C) *obs.Fai
 // the pending replay file and fails the (rapid) test so that it is shrunk.
 func (ck *chk[C]) one(t fataler, c C) {
 	ck.rec.Eval()
-	f := ck.run(c)
+	curMu.Lock()
+	curFail = func(sig, got string) {
+		ck.rec.Violation(&obs.Fail{Sig: ck.rec.Prop + "/" + ck.rec.Check + "/" + sig, Expected: "bounded work", Got: got}, c)
+	}
+	curMu.Unlock()
+	done := make(chan *obs.Fail, 1)
+	go func() { done <- ck.run(c) }()
+	var f *obs.Fail
+	timer := time.NewTimer(caseLimit)
+	select {
+	case f = <-done:
+		timer.Stop()
+	case <-timer.C:
+		f = &obs.Fail{Sig: ck.rec.Prop + "/" + ck.rec.Check + "/nontermination", Expected: "the case finishes", Got: fmt.Sprintf("still running after %v of real time", caseLimit)}
+		if !ck.rec.Known(f) {
+			path := ck.rec.Violation(f, c)
+			fmt.Printf("VIOLATION-CASE property=%s check=%s file=%s\n%s\n", ck.rec.Prop, ck.rec.Check, path, f)
+			obs.Flush()
+			os.Exit(1)
+		}
+	}
 	if f == nil {
 		return
 	}
